@@ -124,8 +124,22 @@ def run_shard(types, tier, seed):
         return _text_checks(t, phase, res, bad)
 
     # (i) + qualifier rule, per type
-    for t in types:
-        text_checks(t, "fresh")
+    for ti, t in enumerate(types):
+        if ti % 2:
+            # process history: the FIRST thing ever generated for the classes of every other type are their plain C
+            # declarations / kernel descriptions with an empty configuration (what a CPU build asks cffi for)
+            try:
+                from xobjects.context import sort_classes
+
+                for c_ in sort_classes([xt.build(t)]):
+                    c_._gen_c_decl({})
+                    if hasattr(c_, "_gen_kernels"):
+                        c_._gen_kernels({})
+            except Exception as e:
+                res.skipped["plain-declarations(C02's business):" + type(e).__name__] += 1
+            text_checks(t, "after-plain-declarations")
+        else:
+            text_checks(t, "fresh")
     # ... and again after a real ContextCpu kernel build in this process: generated text must not depend on what was built before
     try:
         cseam.build_module(types[:1])
